@@ -239,6 +239,66 @@ theorem trimSpace_wrap_ends {w1 w2 t : Bytes} (hw1 : Sp w1) (hw2 : Sp w2)
   rw [List.append_assoc, trimLeftSpace_append_spaces hw1, trimLeftSpace_of_zero hz]
   exact trimRightSpace_append_of_spaces hw2 h2
 
+/-! ### a UTF-8 start byte behind a string that does not start with a white-space rune
+
+The white space behind a value may begin with a multi-byte rune (U+00A0, U+2003, …).  Its
+first byte is a UTF-8 start byte (`≥ 0xC0`), which is never a continuation byte of a
+white-space rune, so the left-to-right decoder still sees no white-space rune at the head
+of `t ++ w`, whatever bytes `t` ends with. -/
+
+/-- a byte that cannot continue a multi-byte rune: ASCII or a UTF-8 start byte -/
+def NonCont (a : Nat) : Prop := a < 0x80 ∨ 0xC0 ≤ a
+
+instance (a : Nat) : Decidable (NonCont a) := inferInstanceAs (Decidable (_ ∨ _))
+
+/-- the continuation bytes of a white-space rune are UTF-8 continuation bytes -/
+theorem spaceLen_cont {l : Bytes} {k : Nat} (h : spaceLen l = k)
+    (i b : Nat) (h1 : 1 ≤ i) (h2 : i < k) (hb : l[i]? = some b) : 0x80 ≤ b ∧ b < 0xC0 := by
+  unfold spaceLen at h
+  split at h <;> first
+    | omega
+    | (have hi : i = 1 := by omega
+       subst hi; simp at hb; omega)
+    | (have hi : i = 1 ∨ i = 2 := by omega
+       rcases hi with hi | hi <;> subst hi <;> simp at hb <;> omega)
+    | (split at h
+       · have hi : i = 1 ∨ i = 2 := by omega
+         rcases hi with hi | hi <;> subst hi <;> simp at hb <;> omega
+       · omega)
+
+theorem spaceLen_append_nonCont {t : Bytes} (h : spaceLen t = 0) (hne : t ≠ []) (a : Nat)
+    (ha : NonCont a) (Y : Bytes) : spaceLen (t ++ a :: Y) = 0 := by
+  apply Classical.byContradiction
+  intro hk
+  by_cases hle : spaceLen (t ++ a :: Y) ≤ t.length
+  · have h1 := spaceLen_take rfl hk
+    rw [List.take_append_of_le_length hle] at h1
+    have h2 := (spaceLen_append h1 hk (t.drop (spaceLen (t ++ a :: Y)))).2
+    rw [List.take_append_drop, h] at h2
+    exact hk h2.symm
+  · have hpos : 1 ≤ t.length := by
+      cases t with
+      | nil => exact absurd rfl hne
+      | cons => simp
+    have := spaceLen_cont (l := t ++ a :: Y) rfl t.length a hpos (by omega) (by simp)
+    unfold NonCont at ha
+    omega
+
+/-- `TrimSpace` strips white space around a string that neither starts nor ends with a
+    white-space rune, when the white space behind starts with an ASCII byte or with a
+    UTF-8 start byte (that is, with a complete rune). -/
+theorem trimSpace_wrap_ends_nonCont {w1 w2 t : Bytes} (hw1 : Sp w1) (hw2 : Sp w2)
+    (hhead : ∀ a ∈ w2.head?, NonCont a) (hne : t ≠ [])
+    (h1 : spaceLen t = 0) (h2 : spaceLenRev t.reverse = 0) :
+    trimSpace (w1 ++ t ++ w2) = t := by
+  unfold trimSpace
+  have hz : spaceLen (t ++ w2) = 0 := by
+    cases w2 with
+    | nil => simpa using h1
+    | cons a Y => exact spaceLen_append_nonCont h1 hne a (hhead a (by simp)) Y
+  rw [List.append_assoc, trimLeftSpace_append_spaces hw1, trimLeftSpace_of_zero hz]
+  exact trimRightSpace_append_of_spaces hw2 h2
+
 /-! ### prefixes, suffixes, `SplitN` -/
 
 theorem hasPrefix_cons_singleton (c b : Nat) (l : Bytes) : hasPrefix (c :: l) [b] = (b == c) := by
